@@ -188,6 +188,7 @@ class TimedSock:
         self.avail = 0
         self.pos = 0
         self.next_at = None
+        self.trace = []  # what happened, in order: n (a recv returned n bytes) or 'T' (the 100 ms wait expired)
 
     def close(self):
         pass
@@ -221,6 +222,7 @@ class TimedLoop:
         view[:n] = sock.stream[sock.pos : sock.pos + n]
         sock.pos += n
         sock.avail -= n
+        sock.trace.append(n)  # a recv which returned n bytes
         return n
 
 
@@ -241,7 +243,8 @@ def run_mainloop(case, proto_cache={}):
     conn = Connection(AFI.ipv4, '127.0.0.1', '127.0.0.1')
     conn.msg_size = case['max']
     conn.defensive = False
-    conn.io = TimedSock(stream, case['arrivals'])
+    tsock = TimedSock(stream, case['arrivals'])
+    conn.io = tsock
     proto.connection = conn
     loop = VLoop()
     saved = connmod.asyncio.get_event_loop
@@ -278,6 +281,7 @@ def run_mainloop(case, proto_cache={}):
                 outs.append(['RN', n.code, n.subcode])
                 continue
             if m is None or getattr(m, 'SCHEDULING', 0):
+                tsock.trace.append('T')
                 await asyncio.sleep(0)
                 continue
             outs.append(['P', int(m.ID)])
@@ -286,6 +290,7 @@ def run_mainloop(case, proto_cache={}):
     try:
         return loop.run_until_complete(main())
     finally:
+        case['trace'] = list(tsock.trace)
         connmod.asyncio.get_event_loop = saved
         conn.io = None
         proto.connection = None
@@ -512,6 +517,36 @@ Fixpoint bad (l : list (bool * bool * Z * list Z * list nat * list out)) (i : na
   match l with [] => [] | c :: l' => if okc c then bad l' (S i) else i :: bad l' (S i) end.
 """
 
+HEADER_TIMED = HEADER_MODEL.split('Definition okc')[0] + """
+Definition okt (c : Z * list Z * list tev * list out) : bool :=
+  match c with (max, stream, evs, expect) => outs_eqb (map strip (main_reader max stream evs)) expect end.
+Fixpoint badt (l : list (Z * list Z * list tev * list out)) (i : nat) : list nat :=
+  match l with [] => [] | c :: l' => if okt c then badt l' (S i) else i :: badt l' (S i) end.
+"""
+
+
+def evaluate_traces(cases, impl_outs, tag):
+    """the recorded trace of each main-loop run (recv sizes and expired waits, in order) replayed on
+    Model_Reader.main_reader: the model must deliver what the implementation delivered"""
+    idx = [i for i, c in enumerate(cases) if c['mode'] == 'mainloop' and 'trace' in c]
+    shards = common.chunked(idx, 100)
+
+    def evs(c):
+        return '[' + ';'.join('Timeout' if e == 'T' else f'Recv {e - 1}' for e in c['trace']) + ']'
+
+    def defs(sh):
+        items = [f'({cases[i]["max"]}, {zbytes(cases[i]["stream"])}, {evs(cases[i])}, {coq_outs(impl_outs[i], "OMsg", "ONotify")})' for i in sh]
+        return 'Definition cases : list (Z * list Z * list tev * list out) := [' + ';\n'.join(items) + '].\nEval vm_compute in (badt cases 0).\n'
+
+    res = common.eval_cases(HEADER_TIMED, defs, shards, tag + '_t')
+    ok = all(rc == 0 for rc, _, _ in res)
+    bad = []
+    for sh, (rc, out, parsed) in zip(shards, res):
+        if rc == 0 and parsed:
+            bad += [sh[j] for j in common.nat_list_of(parsed[0])]
+    return ok, bad, len(idx), [out for rc, out, _ in res if rc != 0]
+
+
 HEADER_SPEC = """From Coq Require Import ZArith Bool List.
 From ExaV Require Import spec.Spec_Frame.
 Import ListNotations. Open Scope Z_scope.
@@ -635,8 +670,30 @@ def proto_canon(outs):
     return res
 
 
+def mid_message_timeout(case):
+    """did a wait expire while a message was partly read (the situation the kept read exists for)?"""
+    tr = case.get('trace')
+    if not tr:
+        return False
+    s = bytes(case['stream'])
+    pos, start = 0, 0
+    for e in tr:
+        if e == 'T':
+            if pos > start:
+                return True
+            continue
+        pos += e
+        while pos - start >= 19:
+            ln = int.from_bytes(s[start + 16 : start + 18], 'big')
+            if ln < 19 or pos - start < ln:
+                break
+            start += ln
+    return False
+
+
 def describe(case, got):
     return {
+        'main_loop_trace': case.get('trace'),
         'max': case['max'],
         'stream_hex': bytes(case['stream']).hex(),
         'recv_schedule': case['sched'][:64],
@@ -718,6 +775,16 @@ def check(tier, seed):
         f'correspondence: implementation output = model output on {len(cases)} cases',
         not model_bad,
         f'{len(model_bad)} disagreements, first: {describe(cases[model_bad[0]], impl[model_bad[0]]) if model_bad else ""}',
+    )
+    t_ok, t_bad, t_n, t_logs = evaluate_traces(cases, impl, 'c06')
+    n_timeouts = sum(c.get('trace', []).count('T') for c in cases)
+    run.coverage['main_loop_traces'] = {'runs': t_n, 'expired_waits': n_timeouts,
+                                        'runs_with_a_wait_expiring_inside_a_message': sum(1 for c in cases if mid_message_timeout(c))}
+    run.obligation(
+        f'correspondence (read step of Peer._main): the recorded recv/timeout trace of {t_n} main-loop runs replayed on '
+        'Model_Reader.main_reader delivers what the implementation delivered',
+        t_ok and not t_bad,
+        (f'{len(t_bad)} disagreements, first: {describe(cases[t_bad[0]], impl[t_bad[0]])}' if t_bad else '\n'.join(t_logs)[-1500:]),
     )
     run.obligation(
         f'property oracle: implementation output = RFC framing (Spec_Frame.frames) on {len(cases)} cases',
